@@ -164,7 +164,37 @@ fn emit_beam(c: &Case, pol: PolarizationType, bphi: f64, btheta: f64) {
   }));
 }
 
+fn hexf(s: &str) -> f64 {
+  f64::from_bits(u64::from_str_radix(s.trim_start_matches("0x"), 16).unwrap_or(0))
+}
+
+/// vharness c02 replay idx <crystal> <w> <tc> <ct> <cp> <dx> <dy> <dz>      (floats as 0x… bit patterns)
+/// vharness c02 replay walk <crystal> <w> <tc> <ct> <cp> <o|e> <bphi> <btheta>
+fn replay(args: &[String]) {
+  if args.len() < 7 {
+    return;
+  }
+  let crystal = match CrystalType::from_string(&args[1]) {
+    Ok(c) => c,
+    Err(_) => return,
+  };
+  let meta = crystal.get_meta();
+  let uniaxial = matches!(meta.axis_type, OpticAxisType::PositiveUniaxial | OpticAxisType::NegativeUniaxial);
+  emit(json!({"kind": "crystal", "id": meta.id, "axis": format!("{:?}", meta.axis_type), "uniaxial": uniaxial, "lo": fx(0.), "hi": fx(0.)}));
+  let c = Case { id: meta.id, crystal: &crystal, w: hexf(&args[2]), t_c: hexf(&args[3]), ct: hexf(&args[4]), cp: hexf(&args[5]) };
+  if args[0] == "idx" && args.len() >= 9 {
+    emit_idx(&c, Vector3::new(hexf(&args[6]), hexf(&args[7]), hexf(&args[8])), "replay", 1, "base");
+  } else if args[0] == "walk" && args.len() >= 9 {
+    let pol = if args[6] == "o" { PolarizationType::Ordinary } else { PolarizationType::Extraordinary };
+    emit_walk(&c, pol, hexf(&args[7]), hexf(&args[8]), "orient");
+  }
+}
+
 pub fn run(args: &[String]) {
+  if args.first().map(|s| s == "replay").unwrap_or(false) {
+    replay(&args[1..]);
+    return;
+  }
   let seed = arg_u64(args, 0, 1);
   let n_dir = arg_u64(args, 1, 4) as usize;
   let n_walk = arg_u64(args, 2, 4) as usize;
